@@ -38,6 +38,15 @@ Section Safety.
     - eexists. reflexivity.
     - destruct (IH (S l)) as [d Hd]. exists d. now rewrite Hd. Qed.
 
+  (* dNl = np.maximum(0, Ns - Nl) for the allocation answer Ns *)
+  Fixpoint dN_is (Ns : list Z) (l : nat) (vs : list lev) : Prop :=
+    match vs with
+    | [] => True
+    | v :: r => ldN v = Z.to_nat (nth l Ns 0%Z - Z.of_nat (lN v)) /\ dN_is Ns (S l) r
+    end.
+  Lemma set_dN_is Ns vs : forall l, dN_is Ns l (set_dN Ns l vs).
+  Proof. induction vs as [|v r IH]; simpl; intros l; [exact I|]. split; [reflexivity|apply IH]. Qed.
+
   (* what a return of the repaired/unrepaired Engine.price guarantees *)
   Definition safe_outcome (o : outcome state) : Prop :=
     match o with
@@ -46,6 +55,7 @@ Section Safety.
         /\ Forall (fun v => 100 * ldN v <= lN v) (levels s)          (* every level within 1% of its optimum *)
         /\ 1 <= nconv s
         /\ (conv (nconv s - 1) = true \/ length (levels s) - 1 = level_max)   (* bias test passed or L = level_max *)
+        /\ 1 <= nalloc s /\ dN_is (alloc (nalloc s - 1)) 0 (levels s)   (* ldN = max(0, last allocation answer - N_l) *)
     | Fallthrough s => length (levels s) <= S level_max /\ total_dN (levels s) = 0
     | OutOfFuel => True
     end.
@@ -59,7 +69,8 @@ Section Safety.
       destruct (within_one_pct vs1) eqn:E1.
       + destruct (conv (nconv s) || Nat.eqb (length vs1 - 1) level_max)%bool eqn:E2.
         * simpl. rewrite Nat.sub_0_r. split; [lia|]. split; [now apply within_one_pct_spec|]. split; [lia|].
-          apply orb_true_iff in E2. destruct E2 as [E2|E2]; [left; exact E2|right; now apply Nat.eqb_eq in E2].
+          split; [apply orb_true_iff in E2; destruct E2 as [E2|E2]; [left; exact E2|right; now apply Nat.eqb_eq in E2]|].
+          split; [lia|]. rewrite Nat.sub_0_r. unfold vs1. apply set_dN_is.
         * apply IH. simpl. rewrite map_length, set_dN_length, app_length. simpl.
           apply orb_false_iff in E2. destruct E2 as [_ E2]. apply Nat.eqb_neq in E2. lia.
       + apply IH. simpl. rewrite map_length. lia. Qed.
@@ -192,7 +203,7 @@ Proof. intros HB HL. apply (terminates sample cost alloc conv df notional level_
 
 (* ------------------------------------------------------------------ statements as used by Properties/C06.v *)
 Theorem price_safety_full sample cost alloc conv garbage df notional level_max phantom fuel L0 N0 : L0 <= level_max ->
-  safe_outcome conv level_max (price_run sample cost alloc conv garbage df notional level_max phantom fuel L0 N0).
+  safe_outcome alloc conv level_max (price_run sample cost alloc conv garbage df notional level_max phantom fuel L0 N0).
 Proof. intros. now apply price_safety. Qed.
 
 Theorem return_without_bias_test_ex :
